@@ -17,7 +17,8 @@ RULE = ('table of all 136 methods of cvise/passes/*.py regenerated as PyMini pro
         'cursor and of the pass object is compared (the fields that changed must be ones the Coq summary of that method allows), the '
         'cursor is sent through pickle and must come back structurally equal and produce the same candidate, transform is run twice on '
         'equal inputs and must give the same result / bytes / returned cursor, and the directory is listed before and after: only the '
-        'candidate file may change, nothing may be left; non-trivial = distinct (pass, text, cursor) with an OK transform')
+        'candidate file may change, nothing may be left; non-trivial = distinct (pass, text, cursor) with an OK transform'
+        ' Also: cursors still in flight re-checked after every later advance; the pickled (pass, cursor) run in a freshly started interpreter; a pass object whose new() has since seen another file must reproduce recorded candidates; long rejection streaks; a tool that cannot be started.')
 TRUSTED = ['translator tools/gen/pymini.py (Python ast -> PyMini, fail-closed) and its whitelists: library functions and the listed str/re/dict/file methods do not write through their arguments; indirect calls reach only nested functions of the same class',
            'PyMini over-approximates reads, branches and exceptions; what it does not model: writes through aliases created OUTSIDE the method (e.g. two cursors sharing a list) are attributed to "pre-existing object" and would be reported as WAny, not missed',
            'picklability, determinism and scratch files are runtime facts: checked on the explored runs, not proved']
